@@ -14,9 +14,10 @@
 //   gone    the goroutine has returned (Stop)
 //   stuck   parked in some other channel operation for more than 3 s
 // A call is reported "blocked" only when the loop is wedged/gone/stuck AND the
-// calling goroutine is itself parked in a channel operation.  After every call
-// the harness waits until the loop is idle (or wedged/gone) again, so all
-// notifications caused by the call have been delivered before the next call.
+// calling goroutine is itself parked in a channel operation.  The loop accepts the
+// next call only when the previous handler and its notifications are finished, so
+// sequential calls need no barrier; at the end of a history the harness waits until
+// the loop is idle (or wedged/gone) so that the log is complete.
 package main
 
 import (
@@ -208,18 +209,25 @@ type gstate struct {
 	stack string
 }
 
+var (
+	stackMu  sync.Mutex
+	stackBuf = make([]byte, 1<<16)
+)
+
 func allGoroutines() map[uint64]gstate {
-	buf := make([]byte, 1<<20)
+	stackMu.Lock()
+	var dump string
 	for {
-		n := runtime.Stack(buf, true)
-		if n < len(buf) {
-			buf = buf[:n]
+		n := runtime.Stack(stackBuf, true)
+		if n < len(stackBuf) {
+			dump = string(stackBuf[:n])
 			break
 		}
-		buf = make([]byte, 2*len(buf))
+		stackBuf = make([]byte, 2*len(stackBuf))
 	}
+	stackMu.Unlock()
 	res := map[uint64]gstate{}
-	for _, blk := range strings.Split(string(buf), "\n\n") {
+	for _, blk := range strings.Split(dump, "\n\n") {
 		m := goHdr.FindStringSubmatch(blk)
 		if m == nil {
 			continue
@@ -272,11 +280,12 @@ func (r *c17run) classify(gs map[uint64]gstate) string {
 		r.chanSince = time.Time{}
 		return "idle"
 	case "chan send", "chan receive", "chan send (nil chan)", "chan receive (nil chan)", "select (no cases)":
-		if g.state == "chan send" && strings.Contains(g.stack, "engine.(*watcher).update") {
-			return "wedged"
-		}
+		// a send to a harness-side one-shot receiver is also a channel park inside update, but a transient
+		// one: the park must persist before it counts
 		if r.chanSince.IsZero() {
 			r.chanSince = time.Now()
+		} else if g.state == "chan send" && strings.Contains(g.stack, "engine.(*watcher).update") && time.Since(r.chanSince) > 150*time.Millisecond {
+			return "wedged"
 		} else if time.Since(r.chanSince) > 3*time.Second {
 			return "stuck"
 		}
@@ -314,9 +323,73 @@ func (r *c17run) settle() string {
 }
 
 type c17obs struct {
-	oid    int
-	failAt int
-	n      int
+	oid     int
+	failAt  int
+	panicAt map[int]bool
+	n       int
+	oneshot chan error // non-nil: onclose hands the error to a receiver that receives exactly once (the gRPC front end's shape)
+}
+
+// c17panicExpr is a rel.Expr (public interface) whose evaluation panics: always
+// (limit < 0) or when the inner expression's value is not a number <= limit.
+type c17panicExpr struct {
+	rel.Expr
+	always bool
+	limit  float64
+}
+
+func (p c17panicExpr) Eval(ctx context.Context, local rel.Scope) (rel.Value, error) {
+	if p.always {
+		panic("c17: this expression panics")
+	}
+	v, err := p.Expr.Eval(ctx, local)
+	if err != nil {
+		return nil, err
+	}
+	if n, ok := v.(rel.Number); ok && n.Float64() <= p.limit {
+		return v, nil
+	}
+	panic(fmt.Sprintf("c17: cannot evaluate on %v", v))
+}
+
+var (
+	c17cacheMu sync.Mutex
+	c17cache   = map[string]rel.Expr{}
+)
+
+// compiled expressions are immutable: compile each source once per child
+func c17compile(ctx context.Context, src string) (rel.Expr, error) {
+	c17cacheMu.Lock()
+	e, ok := c17cache[src]
+	c17cacheMu.Unlock()
+	if ok {
+		return e, nil
+	}
+	e, err := c17compile1(ctx, src)
+	if err == nil {
+		c17cacheMu.Lock()
+		c17cache[src] = e
+		c17cacheMu.Unlock()
+	}
+	return e, err
+}
+
+func c17compile1(ctx context.Context, src string) (rel.Expr, error) {
+	if strings.HasPrefix(src, "!panic") {
+		inner, err := syntax.Compile(ctx, syntax.NoPath, "$")
+		if err != nil {
+			return nil, err
+		}
+		if src == "!panic" {
+			return c17panicExpr{inner, true, 0}, nil
+		}
+		lim, err := strconv.ParseFloat(strings.TrimPrefix(src, "!panicgt:"), 64)
+		if err != nil {
+			return nil, err
+		}
+		return c17panicExpr{inner, false, lim}, nil
+	}
+	return syntax.Compile(ctx, syntax.NoPath, src)
 }
 
 type c17eng struct {
@@ -343,7 +416,7 @@ func valText(v rel.Value) string {
 func (g *c17eng) call(ctx context.Context, ev map[string]any) string {
 	switch ev["op"] {
 	case "update":
-		expr, err := syntax.Compile(ctx, syntax.NoPath, ev["expr"].(string))
+		expr, err := c17compile(ctx, ev["expr"].(string))
 		if err != nil {
 			return "compile-error"
 		}
@@ -352,16 +425,28 @@ func (g *c17eng) call(ctx context.Context, ev map[string]any) string {
 		}
 		return "ok"
 	case "observe":
-		expr, err := syntax.Compile(ctx, syntax.NoPath, ev["expr"].(string))
+		expr, err := c17compile(ctx, ev["expr"].(string))
 		if err != nil {
 			return "compile-error"
 		}
-		o := &c17obs{oid: int(ev["oid"].(float64)), failAt: int(ev["fail_at"].(float64))}
+		o := &c17obs{oid: int(ev["oid"].(float64)), failAt: int(ev["fail_at"].(float64)), panicAt: map[int]bool{}}
+		if l, ok := ev["panic_at"].([]any); ok {
+			for _, x := range l {
+				o.panicAt[int(x.(float64))] = true
+			}
+		}
+		if b, _ := ev["oneshot"].(bool); b {
+			o.oneshot = make(chan error)
+			go func() { <-o.oneshot }() // `return <-retch`: receives once, then is gone
+		}
 		cancel := g.e.Observe(expr,
 			func(v rel.Value) error {
 				c17emit(map[string]any{"t": "L", "o": o.oid, "m": "U", "v": valText(v)})
 				k := o.n
 				o.n++
+				if o.panicAt[k] {
+					panic("c17: observer callback panics")
+				}
 				if k == o.failAt {
 					return errCB
 				}
@@ -372,6 +457,9 @@ func (g *c17eng) call(ctx context.Context, ev map[string]any) string {
 					c17emit(map[string]any{"t": "L", "o": o.oid, "m": "C", "v": "nil"})
 				} else {
 					c17emit(map[string]any{"t": "L", "o": o.oid, "m": "C", "v": "err"})
+				}
+				if o.oneshot != nil {
+					o.oneshot <- err // a second close finds no receiver and parks the caller: the engine loop
 				}
 			})
 		g.mu.Lock()
@@ -408,15 +496,12 @@ func (g *c17eng) issue(ctx context.Context, ev map[string]any) string {
 	}()
 	gid := <-gidc
 	t0 := time.Now()
-	d := 50 * time.Microsecond
+	d := 2 * time.Millisecond // a served call returns within microseconds; only then look at the goroutines
 	for {
 		select {
 		case a := <-resc:
 			return a
 		case <-time.After(d):
-		}
-		if d < 2*time.Millisecond {
-			d *= 2
 		}
 		gs := allGoroutines()
 		st := g.r.classify(gs)
@@ -473,7 +558,11 @@ func c17RunCase(in map[string]any) {
 		}
 	}
 	// sequential prefix, concurrent clients, sequential suffix
-	seq(0, evList(in["events"]), true)
+	// no barrier between sequential calls: the loop takes the next rendezvous only when the previous handler
+	// (including its notifications, which run after Update has been answered) is finished, and the callbacks
+	// write the log themselves, in order; one barrier at the end of each phase is enough
+	seq(0, evList(in["events"]), false)
+	final = g.r.settle()
 	if cl, ok := in["clients"].([]any); ok && len(cl) > 0 {
 		var wg sync.WaitGroup
 		start := make(chan struct{})
@@ -488,7 +577,7 @@ func c17RunCase(in map[string]any) {
 		close(start)
 		wg.Wait()
 		final = g.r.settle()
-		seq(99, evList(in["after"]), true)
+		seq(99, evList(in["after"]), false)
 	}
 	final = g.r.settle()
 	m := map[string]any{"t": "F", "final": final}
